@@ -1,5 +1,5 @@
 (* C09Proofs.v — lemmas behind props/C09.v *)
-From SV Require Import Base Json MD5 Canon FS Ws WsLemmas Cache CacheLemmas Repair C01Proofs C08Proofs.
+From SV Require Import Base Json MD5 Canon FS Ws WsLemmas Cache CacheLemmas Repair CorrC01 CorrC08 C01Proofs C08Proofs.
 
 Local Arguments calc_id : simpl never.
 
@@ -705,10 +705,9 @@ Section P.
     (get f (jdir t) = None \/ get f (jdir t) = Some Dir) -> has_children f (jdir t) = false ->
     ~ In t rest ->
     repair_loop f s (j :: rest) corrupted = (f', s', r) ->
-    valid f' t = true /\ get f' (jdir j ++ [SPF]) = get f' (spf j).
+    valid f' t = true.
   Proof.
     intros rest f s corrupted f' s' r j c v t Hok Hd Hmiss Hg Hb Ho Hc Htj Hfree Hch Hnr H.
-    split; [|reflexivity].
     pose proof (Hagree _ _ Hb) as Hs.
     simpl in H.
     assert (Eg : get_statepoint f s false j = (reg (ensure_read f s) j v, Ok v)).
@@ -736,10 +735,132 @@ Section P.
     { unfold Repair.reinit, Cache.jinit. rewrite Ho. simpl negb. cbv iota. unfold Cache.cid. rewrite Hc.
       assert (El : sp_load_view f1 t = Ok (v, v)).
       { unfold Cache.sp_load_view, Cache.sp_load. rewrite Hg1, Hb. unfold Cache.cid. rewrite Hc, str_eqb_refl.
-        destruct v; try discriminate. reflexivity. }
+        destruct v; try discriminate Ho. reflexivity. }
       rewrite El. reflexivity. }
     rewrite Ei in H.
-    destruct v; try discriminate; (eapply loop_keeps_valid; [exact Hnr|exact Hok1|exact Hv1|exact H]).
+    destruct v; try discriminate Ho; (eapply loop_keeps_valid; [exact Hnr|exact Hok1|exact Hv1|exact H]).
   Qed.
 
 End P.
+
+(* ================================================================ E. witnesses of the defects *)
+Definition w_bad : list N := [123%N].                       (* the text "{" : a truncated file *)
+Definition w_tab : list (list N * json) := [(dumps ex_fr ex_u0, ex_u0); (dumps ex_fr ex_u1, ex_u1)].
+Definition w_ls (b : list N) : option json := CorrC08.tab_lookup w_tab b.
+Definition w_lb (b : list N) : dec := match CorrC08.tab_lookup w_tab b with Some v => DVal v | None => DJsonErr end.
+Definition w_a : str := calc_id ex_fr ex_u0.
+Definition w_t : str := calc_id ex_fr ex_u1.
+Definition w_x : str := calc_id ex_fr (JInt 7).              (* some other well-formed id *)
+
+(* 1. repair aborts: job a has a truncated file, directory x holds the intact file of job t *)
+Definition w_fs1 : fs :=
+  [([DOTSIGNAC], Dir); ([WS], Dir);
+   ([WS; w_a], Dir); ([WS; w_a; SPF], File (mkContent w_bad None));
+   ([WS; w_x], Dir); ([WS; w_x; SPF], File (sp_content ex_fr ex_u1))].
+
+Theorem repair_restores_refuted :
+  (* x is a misnamed directory with an intact file whose true id t is free ... *)
+  get w_fs1 (spf w_x) = Some (File (sp_content ex_fr ex_u1)) /\
+  w_lb (dumps ex_fr ex_u1) = DVal ex_u1 /\ calc_id ex_fr ex_u1 = w_t /\ w_t <> w_x /\
+  get w_fs1 (jdir w_t) = None /\ has_children w_fs1 (jdir w_t) = false /\
+  (* ... the loop reaches the unrecoverable job a first and is left by its JobsCorruptedError ... *)
+  (exists s', repair_in ex_fr w_ls w_lb w_fs1 fresh [w_a; w_x] = (w_fs1, s', RAbort EJobsCorrupted [w_a])) /\
+  (* ... and t does not validate afterwards, while in the other listing order it does *)
+  valid ex_fr w_ls w_fs1 w_t = false /\
+  (exists f' s' r, repair_in ex_fr w_ls w_lb w_fs1 fresh [w_x; w_a] = (f', s', r) /\ valid ex_fr w_ls f' w_t = true).
+Proof.
+  pose (res := repair_in ex_fr w_ls w_lb w_fs1 fresh [w_x; w_a]).
+  split; [vm_compute; reflexivity|]. split; [vm_compute; reflexivity|]. split; [unfold w_t; reflexivity|].
+  split; [vm_compute; discriminate|]. split; [vm_compute; reflexivity|]. split; [vm_compute; reflexivity|].
+  split; [vm_compute; eexists; reflexivity|]. split; [vm_compute; reflexivity|].
+  exists (fst (fst res)), (snd (fst res)), (snd res). split.
+  - unfold res. destruct (repair_in ex_fr w_ls w_lb w_fs1 fresh [w_x; w_a]) as [[? ?] ?]. reflexivity.
+  - vm_compute. reflexivity.
+Qed.
+
+(* 2. a directory named md5("null") without a state point file *)
+Definition w_null : str := calc_id ex_fr JNull.
+Definition w_fs2 : fs := [([DOTSIGNAC], Dir); ([WS], Dir); ([WS; w_null], Dir)].
+
+Theorem open_by_id_never_wrong_refuted :
+  Inv ex_fr w_fs2 fresh /\
+  (exists s', open_sp_by_id ex_fr w_lb w_fs2 fresh w_null = (s', Ok (JObj []))) /\
+  calc_id ex_fr (JObj []) <> w_null.
+Proof.
+  split; [split; [apply sound_nil|intros c Hc; vm_compute in Hc; discriminate]|].
+  split; [vm_compute; eexists; reflexivity|vm_compute; discriminate].
+Qed.
+
+(* 3. repair registers an unvalidated state point: directory x holds a copy of job a's file *)
+Definition w_fs3 : fs :=
+  [([DOTSIGNAC], Dir); ([WS], Dir);
+   ([WS; w_a], Dir); ([WS; w_a; SPF], File (sp_content ex_fr ex_u0));
+   ([WS; w_x], Dir); ([WS; w_x; SPF], File (sp_content ex_fr ex_u0))].
+
+Theorem repair_cache_sound_refuted :
+  Inv ex_fr w_fs3 fresh /\
+  exists f' s', repair_in ex_fr w_ls w_lb w_fs3 fresh [w_x; w_a] = (f', s', RCorrupt [w_x]) /\
+                alookup w_x (s_cache s') = Some ex_u0 /\ calc_id ex_fr ex_u0 <> w_x /\
+                (exists s'', open_sp_by_id ex_fr w_lb f' s' w_x = (s'', Ok ex_u0)).
+Proof.
+  split; [split; [apply sound_nil|intros c Hc; vm_compute in Hc; discriminate]|].
+  pose (res := repair_in ex_fr w_ls w_lb w_fs3 fresh [w_x; w_a]).
+  exists (fst (fst res)), (snd (fst res)).
+  split; [vm_compute; reflexivity|]. split; [vm_compute; reflexivity|].
+  split; [vm_compute; discriminate|vm_compute; eexists; reflexivity].
+Qed.
+
+(* ================================================================ F. licence for the correspondence *)
+From SV Require Import CorrC09.
+
+Lemma intact_is_valid : forall c f i, intact c f i = Repair.valid (fr9 c) (ls9 c) f i.
+Proof.
+  intros c f i. unfold intact, decoded, Repair.valid. destruct (get f (spf i)) as [[x|]|]; auto.
+Qed.
+
+Lemma subset_s_refl_sym : forall a b, seteq_s a b = seteq_s b a.
+Proof. intros a b. unfold seteq_s. apply andb_comm. Qed.
+
+Lemma ck_same_sym : forall a b, ck_same a b = ck_same b a.
+Proof.
+  intros [|x|e] [|y|e']; simpl; auto.
+  - rewrite subset_s_refl_sym, Nat.eqb_sym. reflexivity.
+  - destruct e, e'; reflexivity.
+Qed.
+
+(* if the implementation agrees with the model on a case whose listed names are directories, the
+   first clause of the oracle (check() names exactly the damaged jobs) holds on the implementation's answer *)
+Theorem model_holds_check : forall c,
+  (forall i, In i (c9_listing c) -> isdir (c9_fs c) (jdir i) = true) ->
+  mismatch_C09 c = false ->
+  ck_same (c9_check c) (expected_check c (c9_fs c) (c9_listing c)) = true.
+Proof.
+  intros c Hd H. unfold mismatch_C09, mismatch9 in H. apply negb_false_iff in H.
+  repeat (apply andb_true_iff in H; destruct H as [H _]).
+  rewrite ck_same_sym. unfold m_check in H.
+  rewrite (check_exact (fr9 c) (ls9 c) (c9_fs c) (c9_listing c) Hd) in H.
+  unfold expected_check.
+  assert (E : filter (fun i => negb (intact c (c9_fs c) i)) (c9_listing c)
+              = filter (fun i => negb (Repair.valid (fr9 c) (ls9 c) (c9_fs c) i)) (c9_listing c)).
+  { apply filter_ext. intro i. rewrite intact_is_valid. reflexivity. }
+  rewrite E. exact H.
+Qed.
+
+(* ---- non-vacuity of the restoration hypotheses on the witness project *)
+Lemma NoSpDirs_of_short : forall f, (forall p, In (p, Dir) f -> (length p <= 2)%nat) -> NoSpDirs f.
+Proof.
+  intros f H j. split; intro E.
+  - unfold spf in E. rewrite get_cons_path in E. apply lookup_In in E. apply H in E. simpl in E. lia.
+  - unfold tmpf in E. rewrite get_cons_path in E. apply lookup_In in E. apply H in E. simpl in E. lia.
+Qed.
+
+Lemma w_fs1_hyps :
+  WsOk w_fs1 /\ get w_fs1 (jdir w_x) = Some Dir /\ alookup w_x (s_cache (ensure_read w_fs1 fresh)) = None /\
+  w_t <> w_x /\ ~ In w_t [w_a].
+Proof.
+  split; [split; [reflexivity|]|].
+  - apply NoSpDirs_of_short. intros p H. unfold w_fs1 in H. cbn [In] in H.
+    repeat (destruct H as [H|H]; [inversion H; subst; simpl; lia|]). contradiction.
+  - split; [vm_compute; reflexivity|]. split; [vm_compute; reflexivity|].
+    split; [vm_compute; discriminate|]. intros [H|[]]. revert H. vm_compute. discriminate.
+Qed.
